@@ -6,6 +6,7 @@ def run(ctx):
     fns = g.run_pyvc(ctx, "C01")
     fams = g.run_fsearch(ctx)
     g.run_funlink(ctx)
+    g.run_fleaf(ctx)
     ctx.standin("hist_rt", families=("OO", "II") if ctx.tier == "quick" else ("OO", "II", "LF", "QQ", "fs", "IO", "UU", "LL"),
                 args=["--mode", "model"])
     return "proof", (
